@@ -83,9 +83,16 @@ class BlockingExecutor(Executor):
                 parent_value, self.context_value, info
             )
 
-        return self.complete_value(
-            field_definition.type, nodes, path, info, resolved
-        )
+        # Same contract as `Executor.resolve_field`: a `ResolverError` raised
+        # while the value is completed (a lazily produced list whose iteration
+        # fails, a type resolver, a serialiser) is a field error as well.
+        try:
+            return self.complete_value(
+                field_definition.type, nodes, path, info, resolved
+            )
+        except ResolverError as err:
+            self.add_error(err, path, node)
+            return None
 
     def complete_list_value(
         self,
